@@ -262,4 +262,9 @@ def replay(path):
 
 
 if __name__ == '__main__':
-    sys.exit(main(sys.argv[1:]))
+    rc = main(sys.argv[1:])
+    sys.stdout.flush()
+    # objects of abandoned runs (coroutines that were never resumed, closed loops) are finalised at interpreter shutdown, when
+    # the builtins are already gone; what they print then says nothing about the run
+    sys.unraisablehook = lambda *a, **k: None
+    sys.exit(rc)
